@@ -192,6 +192,7 @@ func checkC16(c *Ctx, r *Report) {
 		r.Trivial("R16b", name, "unchanged options on path", c.Pos(foo.Pos()), "no path returns the incoming options unchanged")
 	}
 
+	wildcardRule(c, r)
 	// R16c
 	r.Rule("R16c", "the dictionary loop asks for the options of (k, -1) with the key it stores under; the index loop asks for (\"\", i) with the index it stores at; the array dispatcher asks for (\"*\", -1)", 3)
 	dict := c.Func("", "mergeConfigDict")
@@ -231,6 +232,53 @@ func checkC16(c *Ctx, r *Report) {
 			}
 			r.Check(isS && s == "" && same, "R16c", c.FnName(fn), "options of (\"\",i)", c.Pos(ci.Pos()), "handling looked up for the index that is stored", "the index loop looks up the handling of an index other than the one it merges")
 		}
+	}
+}
+
+// wildcardRule (R16d): what includeWildcard hands down for a key is the key's own subtree plus the
+// wildcard entry. The parent tree itself — which also holds the entries of sibling names — may be
+// handed down only when it consists of the wildcard entry alone.
+func wildcardRule(c *Ctx, r *Report) {
+	r.Rule("R16d", "includeWildcard returns the parent tree itself only when the key has no subtree of its own and the parent holds exactly one entry (the wildcard); otherwise a fresh tree or the child's own", 1)
+	fn := c.TryFunc("", "includeWildcard")
+	if fn == nil || len(fn.Params) != 2 {
+		r.add("R16d", "ucfg.includeWildcard", "anchor", "-", Undecided, true, "ANCHOR-MISSING: includeWildcard(child, parent)")
+		return
+	}
+	child, parent := fn.Params[0], fn.Params[1]
+	n := 0
+	for _, ret := range Returns(fn) {
+		isParent := false
+		for _, s := range append(Sources(RetVal(ret, 0)), RetVal(ret, 0)) {
+			if s == ssa.Value(parent) {
+				isParent = true
+			}
+		}
+		if !isParent {
+			continue
+		}
+		n++
+		childNil, single := false, false
+		for _, cd := range DomConds(ret.Block()) {
+			if isNilTestOf(cd, child, true) {
+				childNil = true
+			}
+			if cm, ok := CmpOf(cd.V, cd.Truth); ok && cm.Op == token.EQL {
+				if call, ok := cm.X.(*ssa.Call); ok && BuiltinName(call) == "len" {
+					if k, ok := ConstInt(cm.Y); ok && k == 1 {
+						form := newNFWith(c, parent, "parent").Of(call.Call.Args[0]).String()
+						if strings.Contains(form, "$parent") && strings.Contains(form, ".d") {
+							single = true
+						}
+					}
+				}
+			}
+		}
+		r.Check(childNil && single, "R16d", c.FnName(fn), "parent tree handed down", c.Pos(ret.Pos()), "only under child == nil && len(parent dictionary) == 1",
+			"the parent's whole handling tree is handed down to a key it does not mention although it holds more than the wildcard: per-field policies of sibling names apply again at deeper levels (a setting that merely shares the name is merged with the wrong policy)")
+	}
+	if n == 0 {
+		r.Trivial("R16d", c.FnName(fn), "parent tree handed down", c.Pos(fn.Pos()), "the parent tree is never handed down as it is")
 	}
 }
 
